@@ -435,7 +435,11 @@ class Ctx:
         return path
 
     def verdict(self):
+        seen_kf = set()
         for kf, bn, bad, path in self.known_hits:
+            if (kf["id"], bn, bad) in seen_kf:
+                continue
+            seen_kf.add((kf["id"], bn, bad))
             print("KNOWN-FINDING: property=%s %s [%s; bench=%s monitor=%s replay=%s]" % (
                 self.prop, kf["what"], kf["id"], bn, bad, path))
         for bn, bad, t, path in self.violations:
